@@ -67,6 +67,17 @@ def _target(objs, handles, t):
     return objs[int(t[1:])] if t[0] == "o" else handles[int(t[1:])]
 
 
+def _snapshot(ns, r):
+    """results as plain data; a returned *live child* (synced collection) is only identified by
+    its kind: its content can legitimately change through other handles between the return of the
+    operation and the moment the harness looks at it"""
+    if isinstance(r, ns.SyncedCollection):
+        return "<child dict>" if isinstance(r, ns.SyncedDict) else "<child list>"
+    if isinstance(r, (list, tuple)):
+        return [_snapshot(ns, x) for x in r]
+    return to_plain(ns, r)
+
+
 def _do(ns, objs, handles, op):
     t, name, *args = op
     if name in ("center", "cexit", "enter", "exit"):
@@ -89,7 +100,7 @@ def _do(ns, objs, handles, op):
         r = apply_call(_target(objs, handles, t), name, list(args))
         if name == "dkeys":
             r = sorted(r, key=repr)
-        return ("ok", canon(to_plain(ns, r)))
+        return ("ok", canon(_snapshot(ns, r)))
     except S.DeadlockAbort:
         raise
     except Exception as e:  # noqa: BLE001
